@@ -39,6 +39,7 @@ pub struct Streams {
     pub hyp: Stream,
     pub commit: Stream,
     pub scan: Stream,
+    pub tasks: Stream,
 }
 impl Streams {
     pub fn new() -> Self {
@@ -50,14 +51,15 @@ impl Streams {
             hyp: Stream::new("hyp", REQ_C, "chk_groups_ok", "Manifest * list RewriteGroup", "bool"),
             commit: Stream::new("commit", REQ, "chk_commit", "Manifest * Operation * option fver", "Manifest"),
             scan: Stream::new("scan", REQ_C, "chk_scan", "Manifest", "list (N * (option N * (N * N)))"),
+            tasks: Stream::new("tasks", REQ_C, "chk_tasks_ok", "Manifest * Manifest * list RewriteGroup", "bool * bool"),
         };
-        for st in [&mut s.plan, &mut s.task, &mut s.remap, &mut s.remap_dom, &mut s.hyp, &mut s.commit, &mut s.scan] {
+        for st in [&mut s.plan, &mut s.task, &mut s.remap, &mut s.remap_dom, &mut s.hyp, &mut s.commit, &mut s.scan, &mut s.tasks] {
             st.shard = 60;
         }
         s
     }
     pub fn add_to(self, sink: &mut Sink) {
-        for s in [self.plan, self.task, self.remap, self.remap_dom, self.hyp, self.commit, self.scan] {
+        for s in [self.plan, self.task, self.remap, self.remap_dom, self.hyp, self.commit, self.scan, self.tasks] {
             if !s.is_empty() {
                 sink.add(s);
             }
@@ -445,7 +447,10 @@ pub fn check_row_id_map(t: &Tbl, before: &Snap, olds: &[MFrag], news: &[MFrag], 
 }
 
 // ---------------------------------------------------------------- exporting a committed Rewrite
-pub async fn export_commit(ctx: &mut Ctx, t: &Tbl, v: u64, st: &mut Streams, sink: &mut Sink) -> Result<Option<Vec<(Vec<u64>, Vec<u64>)>>, String> {
+/// Ok(Some((groups as (old ids, new ids), olds_changed))): `olds_changed` = an old fragment recorded in the
+/// committed Rewrite (what the task read) differs from the fragment of that id in the manifest the Rewrite was
+/// applied to (class commit_ignores_task_read_version)
+pub async fn export_commit(ctx: &mut Ctx, t: &Tbl, v: u64, st: &mut Streams, sink: &mut Sink) -> Result<Option<(Vec<(Vec<u64>, Vec<u64>)>, bool)>, String> {
     let ds = t.ds.checkout_version(v).await.map_err(|e| format!("checkout {v}: {e}"))?;
     let tx = ds.read_transaction().await.map_err(|e| format!("read_transaction {v}: {e}"))?;
     let Some(tx) = tx else { return Err(format!("version {v} has no transaction file")) };
@@ -477,9 +482,35 @@ pub async fn export_commit(ctx: &mut Ctx, t: &Tbl, v: u64, st: &mut Streams, sin
     };
     st.commit.push(format!("({}, {}, None)", mp.coq(), op.coq()), recorded.coq(), json!({"history": hist, "version": v, "previous": mp, "operation": op, "manifest": m}));
     let groups_coq = coq::list(mg.iter().map(|g| format!("(mkRewriteGroup {} {})", coq::nlist(g.old.iter()), frags_coq(&g.new))));
-    // hypotheses of the theorems.  Known exception: stable row ids + deferred remap leaves the new ids unassigned
-    // AND the same id 0 may then be "reserved" nowhere: groups_ok only needs ids 0 or fresh, which holds.
-    st.hyp.push(format!("({}, {})", mp.coq(), groups_coq), "true".into(), json!({"history": hist, "version": v, "previous": mp, "groups": mg, "frag_reuse_index": fri.is_some()}));
+    // the old fragments as the tasks read them (recorded in the transaction) against the manifest committed on
+    let mut read_frags: Vec<MFrag> = vec![];
+    let mut olds_changed = false;
+    for g in groups {
+        for of in &g.old_fragments {
+            load_facts(ctx, &prev, std::slice::from_ref(of)).await.ok();
+            let known_del = of.deletion_file.as_ref().map(|d| ctx.del_rows.contains_key(&del_key(of.id, d))).unwrap_or(true);
+            if !known_del {
+                olds_changed = true; // its deletion file is not even readable any more
+                continue;
+            }
+            let r = conv_frag(ctx, of);
+            if mp.fragments.iter().find(|f| f.id == r.id) != Some(&r) {
+                olds_changed = true;
+            }
+            read_frags.push(r);
+        }
+    }
+    read_frags.sort_by_key(|f| f.id);
+    let mut m_read = mp.clone();
+    m_read.fragments = read_frags;
+    st.tasks.push(format!("({}, {}, {})", m_read.coq(), mp.coq(), groups_coq), format!("(true, {})", coq::b(olds_changed)), json!({"history": hist, "version": v, "old_fragments_changed_since_the_tasks_ran": olds_changed}));
+    if olds_changed {
+        sink.count("e2e:commit-over-changed-old-fragments");
+    } else {
+        // hypotheses of the theorems (groups_ok only needs ids 0 or fresh, so the unassigned ids of the
+        // stable-row-ids + deferred-remap finding do not matter here)
+        st.hyp.push(format!("({}, {})", mp.coq(), groups_coq), "true".into(), json!({"history": hist, "version": v, "previous": mp, "groups": mg, "frag_reuse_index": fri.is_some()}));
+    }
     sink.nontrivial(&format!("C13:{}:{}", groups_coq, mp.coq()));
     // new ids as committed: look the new fragments up in the new manifest by their data file
     let mut out = vec![];
@@ -494,7 +525,7 @@ pub async fn export_commit(ctx: &mut Ctx, t: &Tbl, v: u64, st: &mut Streams, sin
         }
         out.push((olds, news));
     }
-    Ok(Some(out))
+    Ok(Some((out, olds_changed)))
 }
 
 pub fn push_scan(st: &mut Streams, t: &Tbl, m: &MManifest, snap: &Snap) {
@@ -780,9 +811,13 @@ pub async fn compaction_round(rng: &mut Rng, t: &mut Tbl, ctx: &mut Ctx, opts: &
 pub async fn after_commits(_rng: &mut Rng, t: &mut Tbl, ctx: &mut Ctx, q: &Queries, reference: &Snap, v_before: u64, what: &str, st: &mut Streams, sink: &mut Sink) {
     let latest = t.ds.version().version;
     let mut groups: Vec<(Vec<u64>, Vec<u64>)> = vec![];
+    let mut olds_changed = false;
     for v in (v_before + 1)..=latest {
         match export_commit(ctx, t, v, st, sink).await {
-            Ok(Some(g)) => groups.extend(g),
+            Ok(Some((g, ch))) => {
+                groups.extend(g);
+                olds_changed |= ch;
+            }
             Ok(None) => {}
             Err(e) => {
                 let class = if t.deferred_on_stable && e.contains("split of indexed and non-indexed") { Some("stable_rowids_deferred_remap_unassigned_fragment_ids") } else { None };
@@ -796,7 +831,8 @@ pub async fn after_commits(_rng: &mut Rng, t: &mut Tbl, ctx: &mut Ctx, q: &Queri
     // rows rewritten twice in one call (cannot happen): chains of groups are not composed here
     match snapshot(t, &t.ds, q).await {
         Ok(after) => {
-            compare(t, q, reference, &after, &groups, what, known_class(t), sink);
+            let known = if olds_changed { Some("commit_ignores_task_read_version") } else { known_class(t) };
+            compare(t, q, reference, &after, &groups, what, known, sink);
             if let Ok(m) = export_manifest(ctx, &t.ds, false).await {
                 push_scan(st, t, &m, &after);
             }
